@@ -25,7 +25,7 @@ from harness.wire import RecordingWriter
 PROP = "C14"
 LEVEL = "exploration"
 TECHNIQUE = 'conservation / exactly-once checker over per-writer byte streams (files read back from disk) against a reference recording writer'
-LEVEL_TEXT = 'Held on random add/remove/write/flush/teardown histories over eleven writer kinds.'
+LEVEL_TEXT = 'Held on random add/remove/write/flush/teardown histories over thirteen writer kinds.'
 RULE = ("histories (25-45 events) of add_writer (incl. duplicates and re-adds) / remove_writer / emitting "
         "calls (moves, comments with non-ASCII text, tool and mode commands) / flush / teardown over mixes "
         "of path-based FileWriter, BytesIO, StringIO, text streams that claim to be terminals, real binary and utf-8/latin-1/utf-16 text file objects, ConsoleWriter "
@@ -47,7 +47,8 @@ FLOORS = {
     "thorough": {"counts": {"writer_stream_comparisons": 700000}, "keys": 150},
 }
 KINDS = ["path", "bytesio", "stringio", "binfile", "textfile", "console", "custom",
-         "textfile-latin1", "textfile-utf16", "tty-text", "console-text"]
+         "textfile-latin1", "textfile-utf16", "tty-text", "console-text",
+         "textfile-tmpwrapper", "textfile-codecs"]
 
 
 class TtyText(io.StringIO):
@@ -55,7 +56,9 @@ class TtyText(io.StringIO):
 
     def isatty(self):
         return True
-TEXT_ENCODINGS = {"textfile": "utf-8", "textfile-latin1": "latin-1", "textfile-utf16": "utf-16"}
+TEXT_ENCODINGS = {"textfile": "utf-8", "textfile-latin1": "latin-1", "textfile-utf16": "utf-16",
+                  # text file objects that are proxies rather than io.TextIOBase instances
+                  "textfile-tmpwrapper": "utf-8", "textfile-codecs": "utf-8"}
 
 
 class W:
@@ -83,6 +86,16 @@ class W:
         elif kind == "binfile":
             self.path = os.path.join(tmp, f"bin{idx}.gcode")
             self.stream = open(self.path, "wb")
+            self.writer = FileWriter(self.stream)
+        elif kind == "textfile-tmpwrapper":
+            self.stream = tempfile.NamedTemporaryFile("w", encoding="utf-8", newline="", delete=False,
+                                                      dir=tmp, prefix=f"tw{idx}_", suffix=".gcode")
+            self.path = self.stream.name
+            self.writer = FileWriter(self.stream)
+        elif kind == "textfile-codecs":
+            import codecs
+            self.path = os.path.join(tmp, f"codecs{idx}.gcode")
+            self.stream = codecs.open(self.path, "w", "utf-8")
             self.writer = FileWriter(self.stream)
         elif kind in TEXT_ENCODINGS:
             # a caller-supplied text stream in the caller's encoding: the file must hold the same TEXT
